@@ -283,7 +283,10 @@ class Prop(Check):
     LEAN_MODULE = "TextxVerif.Props.C08"
     THEOREMS = ["Resolve.C08_order", "Resolve.C08_targets", "Resolve.C08_prefix_sorted", "Resolve.C08_append_false",
                 "RefList.C08_keyed_order", "RefList.C08_keyed_positions", "RefList.C08_history_order",
-                "RefList.C08_shared_book_false", "RefList.C08_falsy_position_false"]
+                "RefList.C08_shared_book_false", "RefList.C08_falsy_position_false",
+                "Resolve.C08_append_spec", "RefList.C08_loop_keyed", "RefList.C08_loop_keyed_files",
+                "RefList.C08_loop_keyed_result", "RefList.C08_loopQ_keyed",
+                "RefList.C08_schedule_keyed", "RefList.C08_schedule_keyed_result"]
     DRIVER = "Drivers/RefList.lean"
     QUICK_CASES = 500
     THOROUGH_CASES = 8000
@@ -570,7 +573,16 @@ class Prop(Check):
                 continue
             for fi in range(len(load["files"])):
                 runs.append([[obj, a, pos, t] for (f, obj, a, j, pos, t) in o["log"] if f == fi])
-        return {"op": "history", "runs": runs}
+        # the same loads as *schedules*: the model runs the Postponed loop itself (`Resolve.loopO` with the wait
+        # counts of the case) instead of replaying the observed sequence; references per file in textual order
+        loads = []
+        for load, o in zip(case["loads"], obs["loads"]):
+            if o["outcome"] != "ok" or load_fails(load, case["mm"]):
+                continue
+            loads.append([[[r["obj"], r["attr"], r["pos"], r["tgt"], r["wait"]]
+                           for r in render_file(fi, f, load, case["mm"])[1]]
+                          for fi, f in enumerate(load["files"])])
+        return {"op": "history", "runs": runs, "loads": loads}
 
     def compare(self, case, obs, out):
         if "err" in out:
@@ -586,6 +598,26 @@ class Prop(Check):
                     if key.startswith(f"{fi}:") and got != want.get(key, []):
                         return (f"load {li} list {key}: implementation {got}, model replay of the resolution "
                                 f"sequence {want.get(key, [])}")
+        # the loop model under the case's schedule: same resolution sequence per resolver, same lists
+        sched = iter(out.get("loads", []))
+        for li, (load, o) in enumerate(zip(case["loads"], obs["loads"])):
+            if o["outcome"] != "ok" or load_fails(load, case["mm"]):
+                continue
+            m = next(sched, None)
+            if m is None:
+                return f"load {li}: no answer of the schedule model"
+            if m["pending"]:
+                return f"load {li} succeeded but the loop model leaves {m['pending']} references pending"
+            for fi, mf in enumerate(m["files"]):
+                seen = [[obj, a, pos] for (f, obj, a, j, pos, t) in o["log"] if f == fi]
+                if seen != mf["seq"]:
+                    return (f"load {li} file {fi}: references resolved in the order {seen} [obj, attr, pos], the loop "
+                            f"model under the same schedule resolves {mf['seq']}")
+                want = {f"{fi}:{obj}:{a}": v for obj, a, v in mf["lists"]}
+                for key, got in sorted(o["lists"].items()):
+                    if key.startswith(f"{fi}:") and got != want.get(key, []):
+                        return (f"load {li} list {key}: implementation {got}, loop model under the same schedule "
+                                f"{want.get(key, [])}")
         return None
 
     def oracle(self, case, obs):
